@@ -126,4 +126,22 @@ let () =
          verdict ~agree ~spec ~kf:"-"
            ~detail:(Printf.sprintf "tmp=%s fresh=%b status=%d model_status=%d seen=%d after=%s" (match tmp with A "-" -> "(none found beside the target)" | t -> show_chars (str t))
                       (fresh t) code status_model (List.length seen) (show_node aft)))
+    | [L [A "tags"; tag; L runes; put; get; head; pf; back]] ->
+      let runes = List.map int_ runes in
+      let ip (x : n) = List.mem (int_of_n x) runes in
+      let o = function A "-" -> None | A "panic" -> raise (Failure "implementation panicked") | a -> Some (str a) in
+      let t = str tag in
+      let put = o put and get = o get and head = o head and pf = o pf in
+      let back = (match back with A "1" -> Some true | A "0" -> Some false | _ -> None) in
+      bump (if t = [] then "tag_empty" else if runes <> [] then "tag_with_printable_above_ff" else "tag_other");
+      note_nontrivial (show tag);
+      let model_back = (match get with Some s -> match_back s t | None -> None) in
+      verdict ~agree:(tags_agree ip t put get head pf && back = model_back) ~spec:(tags_spec_ok t put get head pf back) ~kf:"-"
+        ~detail:(Printf.sprintf "model announces %s" (match announce ip t with Some s -> show_chars s | None -> "(nothing)"))
+    | [L [A "cdav"; A kind; im; inm; gim; ginm; status]] ->
+      let o = function A "-" -> None | a -> Some (str a) in
+      let got = (match o gim, o ginm with Some a, Some b -> Some (a, b) | _ -> None) in
+      bump ("cdav_" ^ kind); note_nontrivial (show (L [A kind; im; inm]));
+      let ok = cdav_agree (o im) (o inm) got && (match status with A "201" | A "204" -> true | _ -> false) in
+      verdict ~agree:ok ~spec:ok ~kf:"-" ~detail:"the backend must receive both header values byte for byte"
     | _ -> raise (Parse_error "line"))
